@@ -679,6 +679,37 @@ fn eval_case_inner(line: &str) -> String {
                 format!("len={} zeros={} ff={} first={}", b.len(), zeros, ff, b.iter().take(4).map(|x| x.to_string()).collect::<Vec<_>>().join("."))
             }
         },
+        "CHILD" => {
+            // CHILD <inner case>: the inner case evaluated in a child process, on an ordinary thread with the default 2 MiB
+            // stack (this process works on a 1 GiB stack so that deep recursion in the HARNESS never matters; a library
+            // that recurses once per interrupted read, per poll or per chunk only shows on a normal stack).  ABORT if the
+            // child died.
+            let exe = match std::env::current_exe() {
+                Ok(e) => e,
+                Err(_) => return "UNAVAILABLE".to_string(),
+            };
+            let inner = t[1..].join(" ");
+            let mut cmd = std::process::Command::new(exe);
+            cmd.arg("run").env("FDX_SMALL_STACK", "1").stdin(std::process::Stdio::piped()).stdout(std::process::Stdio::piped()).stderr(std::process::Stdio::null());
+            let mut child = match cmd.spawn() {
+                Ok(c) => c,
+                Err(_) => return "UNAVAILABLE".to_string(),
+            };
+            {
+                use std::io::Write as _;
+                if let Some(mut stdin) = child.stdin.take() {
+                    let _ = stdin.write_all(inner.as_bytes());
+                    let _ = stdin.write_all(b"\n");
+                }
+            }
+            match child.wait_with_output() {
+                Err(_) => "UNAVAILABLE".to_string(),
+                Ok(o) => {
+                    let out = String::from_utf8_lossy(&o.stdout).trim_end_matches('\n').to_string();
+                    if o.status.success() && !out.is_empty() { out } else { "ABORT".to_string() }
+                }
+            }
+        }
         "UNW" => {
             // UNW w h x y S|G: the pixel operation made from a destructor while the thread is unwinding from another
             // panic, in a child process.  Out of bounds must still panic there (which then aborts the process) rather
